@@ -4,13 +4,17 @@
     regex engine is assumed here.  Models: Dl/DlWrite.v ([dlw] = dl_write_range),
     Dl/Multipart.v ([mpx] = multipart_extract).
 
-    What is NOT a Coq theorem (covered by the differential runs and the direct oracle of
-    tools/props/c05.py only): that [mpx] hands exactly the part payloads of a well-formed
-    multipart/byteranges body to [dlw] — this depends on the meaning of the three POSIX
-    patterns, which the model keeps as an oracle.  From there on (payload stream -> file)
-    everything below applies. *)
+    Multipart responses: the theorems C05_mp_* / C05_transfer are about the model with the regex
+    oracle instantiated by Dl/LiteralMatcher.v ([lit_exec]: the meaning of the three patterns
+    zchunk builds, written as list functions).  That glibc's regexec computes the same function
+    is not proved; it is compared on every (pattern, string) pair of every correspondence run
+    and on 20 000 / 300 000 generated strings (tools/props/c05.py).  The grammar of well-formed
+    bodies is Dl/MpGrammar.v; restrictions: boundary and extra header lines without CR/LF/NUL,
+    no "content-range:" in header lines AFTER the Content-Range line (the LAST occurrence wins
+    in the pattern), payload bytes arbitrary (boundary strings, CRLFCRLF, NUL allowed: the
+    payload is cut out by length). *)
 From ZV Require Import Base.Bytes Dl.DlWrite Dl.Multipart Dl.FileLemmas Dl.DlProofs Dl.MpStream
-  Dl.DlInv Dl.DlPlace Dl.C05Final.
+  Dl.DlInv Dl.DlPlace Dl.C05Final Dl.LiteralMatcher Dl.MpGrammar Dl.MpSafe Dl.LiteralProofs Dl.MpPlace Dl.MpFinal.
 Local Open Scope N_scope.
 
 (** the recursion of dl_write_range always terminates within its fuel *)
@@ -126,6 +130,106 @@ Theorem C05_mismatch_zeroed : forall H doff ridx s bs s',
     fread (d_file s') (doff + c_start c) (N.to_nat (c_len c)) = repeat 0 (N.to_nat (c_len c)).
 Proof. exact dlw_fail_zeroed_gen. Qed.
 Print Assumptions C05_mismatch_zeroed.
+
+(** * Multipart responses with the literal matcher *)
+
+(** the literal matcher recognises the patterns the model builds, and obeys the regexec
+    contract of C17 (so the safety theorems apply to it) *)
+Theorem C05_lit_decodes_next : forall B str, lit_exec (pat_next B) str = next_match B str.
+Proof. exact lit_exec_next. Qed.
+Print Assumptions C05_lit_decodes_next.
+
+Theorem C05_lit_contract : rx_contract lit_exec.
+Proof. exact lit_contract. Qed.
+Print Assumptions C05_lit_contract.
+
+(** on the header string of a well-formed part the part-header pattern yields exactly the two
+    digit strings of the Content-Range line *)
+Theorem C05_lit_finds_range : forall B p rest,
+  boundary_ok B -> part_hdr_ok p ->
+  exists so1 eo1 so2 eo2,
+    next_match B (hstr B p) = Some ((so1, eo1), (so2, eo2)) /\
+    take_exact (hstr B p ++ rest) so1 (eo1 - so1) = Some (p_da p) /\
+    take_exact (hstr B p ++ rest) so2 (eo2 - so2) = Some (p_db p).
+Proof. exact next_match_wf. Qed.
+Print Assumptions C05_lit_finds_range.
+
+(** the C digit loop computes the decimal value (below 2^64) *)
+Theorem C05_parse_dec_value : forall d,
+  Forall (fun c => is_dg c = true) d -> dec_value d < two64 -> parse_dec d = dec_value d.
+Proof. exact parse_dec_value. Qed.
+Print Assumptions C05_parse_dec_value.
+
+(** the header callback stores the boundary of a Content-Type line, quoted or not *)
+Theorem C05_header_boundary : forall x pre B quoted,
+  d_err (x_dl x) = false ->
+  Forall (fun c => c <> 0) pre ->
+  (forall k, (k < length pre)%nat -> prefix_ic kw_boundary (skipn k (pre ++ kw_boundary)) = false) ->
+  Forall (fun c => c <> 0 /\ c <> 13) B -> B <> [] ->
+  (quoted = false -> hd 0 B <> 32 /\ hd 0 B <> 34) ->
+  len (ct_line pre B quoted) < two64 ->
+  header_cb lit_comp lit_exec x (ct_line pre B quoted) =
+    mkX (x_dl x) (mkMp false 0 []) (Some B) (x_rx x).
+Proof. exact header_cb_lit. Qed.
+Print Assumptions C05_header_boundary.
+
+(** T5.2 multipart: every non-empty prefix of a well-formed body is accepted in one call; the
+    whole body leaves the chunk writer in the state of the single call on the payload *)
+Theorem C05_mp_prefix : forall H doff ridx tab0 datas B parts fpos file p q,
+  req_ok doff ridx tab0 -> datas_ok H ridx tab0 datas -> wf_body B parts datas ->
+  p <> [] -> p ++ q = mp_body B parts ->
+  exists x', mpx H doff ridx lit_comp lit_exec (x_init B fpos file tab0) p = (x', MOk) /\
+    d_err (x_dl x') = false /\
+    (q = [] -> x_dl x' = fst (dlw H doff ridx (init fpos file tab0) (concat datas))).
+Proof. exact mp_prefix_lit. Qed.
+Print Assumptions C05_mp_prefix.
+
+(** ... for EVERY partition of the body into non-empty callback invocations all callbacks
+    succeed and the final state is that of the single dl_write_range call on the payload *)
+Theorem C05_mp_any_partition : forall H doff ridx tab0 datas B parts fpos file frags,
+  req_ok doff ridx tab0 -> datas_ok H ridx tab0 datas -> wf_body B parts datas ->
+  Forall (fun fr => fr <> []) frags -> concat frags = mp_body B parts ->
+  exists x' rets,
+    feed_frags H doff ridx lit_comp lit_exec (x_init B fpos file tab0) frags = (x', rets, true) /\
+    x_dl x' = fst (dlw H doff ridx (init fpos file tab0) (concat datas)).
+Proof. exact mp_place_any_partition_lit. Qed.
+Print Assumptions C05_mp_any_partition.
+
+(** ... hence every requested chunk is at its offset and valid, other flags untouched *)
+Theorem C05_mp_placement : forall H doff ridx tab0 datas B parts fpos file frags x' rets,
+  req_ok doff ridx tab0 -> datas_ok H ridx tab0 datas -> wf_body B parts datas ->
+  Forall (fun fr => fr <> []) frags -> concat frags = mp_body B parts ->
+  feed_frags H doff ridx lit_comp lit_exec (x_init B fpos file tab0) frags = (x', rets, true) ->
+  (forall k e d c, nth_error ridx k = Some e -> nth_error datas k = Some d ->
+      nth_error tab0 (r_tgt e) = Some c ->
+      (exists c', nth_error (d_tab (x_dl x')) (r_tgt e) = Some c' /\ c_valid c' = VValid) /\
+      fread (d_file (x_dl x')) (doff + c_start c) (length d) = d) /\
+  (forall t, ~ In t (map r_tgt ridx) -> nth_error (d_tab (x_dl x')) t = nth_error tab0 t).
+Proof. exact mp_place_lit. Qed.
+Print Assumptions C05_mp_placement.
+
+(** the whole transfer through the two callbacks: Content-Type header line, then the body in
+    any fragmentation *)
+Theorem C05_transfer : forall H doff ridx tab0 datas B parts fpos file pre quoted frags,
+  req_ok doff ridx tab0 -> datas_ok H ridx tab0 datas -> wf_body B parts datas ->
+  Forall (fun c => c <> 0) pre ->
+  (forall k, (k < length pre)%nat -> prefix_ic kw_boundary (skipn k (pre ++ kw_boundary)) = false) ->
+  B <> [] -> (quoted = false -> hd 0 B <> 32 /\ hd 0 B <> 34) -> len (ct_line pre B quoted) < two64 ->
+  Forall (fun fr => fr <> []) frags -> concat frags = mp_body B parts ->
+  exists x' rets,
+    feed_frags H doff ridx lit_comp lit_exec
+      (header_cb lit_comp lit_exec (x_start fpos file tab0) (ct_line pre B quoted)) frags = (x', rets, true) /\
+    (forall k e d c, nth_error ridx k = Some e -> nth_error datas k = Some d ->
+        nth_error tab0 (r_tgt e) = Some c ->
+        (exists c', nth_error (d_tab (x_dl x')) (r_tgt e) = Some c' /\ c_valid c' = VValid) /\
+        fread (d_file (x_dl x')) (doff + c_start c) (length d) = d) /\
+    (forall t, ~ In t (map r_tgt ridx) -> nth_error (d_tab (x_dl x')) t = nth_error tab0 t).
+Proof. exact transfer_lit. Qed.
+Print Assumptions C05_transfer.
+
+(** non-vacuity of the multipart theorems: [FinalExample.ex_wf], [ex_req], [ex_datas], [ex_run],
+    [ex_transfer] in Dl/MpFinal.v (a two-part body with extra header lines, upper-case
+    keyword, double spaces, payload containing CR LF NUL; whole, byte-wise, uneven, quoted). *)
 
 (** Documentation of D14: with a zero-length entry in the range index the streaming law is
     FALSE for dl_write_range (one call drops the rest of the payload, two calls deliver it),
